@@ -213,6 +213,48 @@ def oracle(ctx, script, real):
             ctx.oracle_fail("clock tick raised %s" % e["exc"], dict(trx_defs=defs, ops=[SC.describe(o) for o in ops]), key="c02-tick-raises")
 
 
+def mid_tick_reconfig(ctx, rng):
+    """the socket thread may handle a command BETWEEN the clock thread's ticks of two transceivers of one frame (nothing is held across
+    them): a hopping receiver that gets a new SETFH there is judged by its OLD sequence for the sender ticked before and by its NEW
+    sequence for the sender ticked after - for the same frame number.  Implementation-level (the session model's tick is atomic)."""
+    from ..session import Session
+    fA, fB, fZ = 935000, 935200, 1805000
+    n = 0
+    for it in range(12 if ctx.tier == "quick" else 300):
+        F = rng.choice([0, 1, 2, 100, 101, 2715646, 2715647, rng.below(W.H)])
+        m0, m1 = rng.choice([(0, 1), (1, 0), (0, 0), (1, 1)])
+        hsn0, hsn1 = rng.choice([(0, 0), (0, 0), (5, 0), (0, 9), (17, 17)])
+        ma = [(fA, 890000), (fB, 890200)]
+        s = Session([("127.0.0.1", 7700, 0)])
+        try:
+            for k in (0, 2):                      # the two senders: both transmit on fA, listen elsewhere
+                s.ctrl(k, W.cmd("CMD RXTUNE %d" % fZ)); s.ctrl(k, W.cmd("CMD TXTUNE %d" % fA)); s.ctrl(k, W.cmd("CMD POWERON"))
+            setfh = lambda h, m: W.cmd("CMD SETFH %d %d %s" % (h, m, " ".join("%d %d" % p for p in ma)))
+            s.ctrl(1, setfh(hsn0, m0)); s.ctrl(1, W.cmd("CMD POWERON"))
+            for k in (0, 2):
+                s.data(k, W.tx_datagram(0, F, 3, 0, W.rand_burst(rng, 148)))
+            rsock = s.trxs[1].data_if.sock
+            rsock.sent.clear()
+            s.trxs[0].clck_tick(s.app.burst_fwd, F)
+            n1 = len(rsock.sent)
+            o, exc = s.ctrl(1, setfh(hsn1, m1))
+            s.trxs[2].clck_tick(s.app.burst_fwd, F)
+            n2 = len(rsock.sent) - n1
+            want1 = 1 if ma[spec_mai(hsn0, m0, 2, F)][0] == fA else 0
+            want2 = 1 if ma[spec_mai(hsn1, m1, 2, F)][0] == fA else 0
+            n += 1
+            ctx.evaluations += 1
+            ctx.nontrivial(("mid-tick", want1, want2, hsn0 != 0, hsn1 != 0))
+            if (n1, n2) != (want1, want2) or exc:
+                ctx.oracle_fail("a SETFH handled between the ticks of two transceivers of one frame: the receiver must be judged by its old hopping sequence for the sender ticked before and by the new one for the sender ticked after",
+                                dict(frame=F, old=dict(hsn=hsn0, maio=m0), new=dict(hsn=hsn1, maio=m1), ma_khz=ma, sender_tx_khz=fA), key="c02-mid-tick-reconfig",
+                                expected=(want1, want2), observed=(n1, n2))
+                break
+        finally:
+            s.close()
+    ctx.count("mid_tick_reconfigurations", n)
+
+
 def run(ctx):
     gen(ctx)
     ctx.prove()
@@ -225,6 +267,7 @@ def run(ctx):
     for s, r in zip(scripts, reals):
         oracle(ctx, s, r)
         W.refused_leaves_no_trace(ctx, s, r, "c02")
+    mid_tick_reconfig(ctx, rng)
     ctx.sample(dict(trx_defs=scripts[0][0], ops=[SC.describe(o) for o in scripts[0][1][:12]]))
     ctx.count("operations", sum(len(s[1]) for s in scripts))
     ctx.count("transceivers", sum(2 + len(s[0]) for s in scripts))
